@@ -317,6 +317,9 @@ func dischargeAll(fvs []*FV, filter func(*Obligation) bool, timeout time.Duratio
 				o.Status = "outside"
 				continue
 			}
+			if o.Solver == "syntactic" {
+				continue
+			}
 			if filter == nil || filter(o) {
 				jobs = append(jobs, job{fv, o})
 			}
